@@ -384,12 +384,13 @@ static void body()
     vrt::require("threw.ST::bad_format", 200);
     vrt::require("threw.std::out_of_range", 200);
     vrt::require("format.rvalue_argument", 100);
-    vrt::note("enumerated: every throwing entry point x target length {0,5,15,16,17,40} x argument length {3,20,60} x damage position {start,middle,end}; random contents");
-    const size_t reps = vrt::tier_count(40, 1500);
-    static const size_t ALENS[] = {3, 20, 60};
-    vrt::phase("enumerated", reps * 6 * 3 * 3, [&](uint64_t i, Rng &r) {
-        size_t tl = TARGET_LENS[i % 6], al = ALENS[(i / 6) % 3];
-        int where = static_cast<int>((i / 18) % 3);
+    vrt::note("enumerated: every throwing entry point x target length {0,5,15,16,17,40} x argument length {3,20,60,70,135,300,1100} x damage position {start,middle,end}; random contents");
+    const size_t reps = vrt::tier_count(120, 1200);
+    // (the longer arguments put the damage behind 64, 128, 256 and 1024 units of valid text: block-wise conversions)
+    static const size_t ALENS[] = {3, 20, 60, 70, 135, 300, 1100};
+    vrt::phase("enumerated", reps * 6 * 7 * 3, [&](uint64_t i, Rng &r) {
+        size_t tl = TARGET_LENS[i % 6], al = ALENS[(i / 6) % 7];
+        int where = static_cast<int>((i / 42) % 3);
         string_target_scenarios(r, tl, al, where);
         static const size_t FILLS[] = {0, 10, 255, 256, 257, 600};
         stream_scenarios(r, FILLS[i % 6], al, where);
